@@ -165,7 +165,7 @@ package termincommittee
 //@ func lemmaC11Prepare
 //@   props C11
 //@   requires TicOK(a) && TicOK(b) && pm != nil && pm.content != nil
-//@   requires [matching-state.same-committee-and-keys] SameCommittee(a, b) && KeysAgree(a, b)
+//@   requires [matching-state.same-committee-keys-and-instance] SameCommittee(a, b) && KeysAgree(a, b) && a.messageFactory.instanceId == b.messageFactory.instanceId
 //@   requires [emitted-by-a] EmittedPrepare(a, pm)
 //@   requires [unless-the-peer-view-is-already-higher] pm.content.SignedHeader().View() >= b.State.view
 //@   ensures [L11.an-emitted-prepare-is-acceptable-to-the-peer] AcceptsPrepare(b, pm)
@@ -175,7 +175,7 @@ package termincommittee
 //@ func lemmaC11Vote
 //@   props C11
 //@   requires TicOK(a) && TicOK(b) && vcm != nil && vcm.content != nil
-//@   requires [matching-state.same-committee-and-keys] SameCommittee(a, b) && KeysAgree(a, b) && a.State.height == b.State.height
+//@   requires [matching-state.same-committee-keys-and-instance] SameCommittee(a, b) && KeysAgree(a, b) && a.State.height == b.State.height && a.messageFactory.instanceId == b.messageFactory.instanceId
 //@   requires [emitted-by-a] EmittedVote(a, vcm)
 //@   requires [addressed-to-b-as-leader-of-that-view] b.myMemberId == LeaderOf(b.committeeMembers, vcm.content.SignedHeader().View())
 //@   requires [unless-the-leader-already-passed-the-view] vcm.content.SignedHeader().View() >= b.State.view
@@ -185,7 +185,7 @@ package termincommittee
 //@ func lemmaC11Commit
 //@   props C11
 //@   requires TicOK(a) && TicOK(b) && cm != nil && cm.content != nil
-//@   requires [matching-state.same-committee-and-keys] SameCommittee(a, b) && KeysAgree(a, b)
+//@   requires [matching-state.same-committee-keys-and-instance] SameCommittee(a, b) && KeysAgree(a, b) && a.messageFactory.instanceId == b.messageFactory.instanceId
 //@   requires [emitted-by-a] EmittedCommit(a, cm)
 //@   ensures [L11.an-emitted-commit-is-acceptable-to-the-peer] AcceptsCommit(b, cm)
 
